@@ -116,6 +116,24 @@ def run(pid, tier, seed, replay=None):
         tv_states += pstates
         extra_traces = len(presults)
         note += "; " + pnote
+    if pid == "C06" and replay is None and not damaged:
+        # the same observations for commands assembled through the Exec builder (what the child sees is C06's
+        # subject whichever API built the command): the plain model of Builder.tla predicts argv / environ / cwd
+        from . import api_scen, c_builder
+        bscs = api_scen.fam_builder_env(seed, tier == "thorough")
+        bres, bstates = c_builder.run_sequences(bscs, "C06b")
+        bmap = {"C16_environment_edits": "C06_env_exact", "C16_arguments_in_order": "C06_argv_exact", "C16_cwd": "C06_cwd"}
+        bseen = set()
+        bby = {x["id"]: x for x in bscs}
+        for r in bres:
+            for v in r["viol"]:
+                if v in bmap and bmap[v] not in bseen:
+                    bseen.add(bmap[v])
+                    path = save_replay(pid, {"property": pid, "monitor": bmap[v], "signature": bmap[v] + "/builder",
+                                             "engine": "builder", "scenario": bby[r["id"]]})
+                    new.append(("%s fired for builder sequence %s" % (bmap[v], r["id"]), path))
+        tv_states += bstates
+        extra_traces += len(bres)
     samples = [{"scenario": by_id[i], "trace_head": [json.loads(x) for x in blk[i][1:10]]} for i in list(blk)[:2]]
     cov = {
         "states": max(1, sum(m["distinct"] for m in mc) + tv_states),
